@@ -349,6 +349,10 @@ def case_structure(ctx, hooks, rng):
     maxd = 2 if nd >= 4 else 3
     idx = [gen.rand_index(sr, rng, sym, maxc=3 if nd < 4 else 2, maxd=maxd, p_single=0.05, minc=2 if rng.random() < 0.7 else 1) for _ in range(nd)]
     feature = []
+    n_sh = gen.EXOTIC_SEEN.get("shared-index-object", 0)
+    gen.share_index_objects(rng, idx)
+    if gen.EXOTIC_SEEN.get("shared-index-object", 0) > n_sh:
+        feature.append("one-index-object-on-several-legs")
     charge = gen.pick_charge(rng, sym, idx)
     secs = gen.all_sectors(sym, idx, charge)
     cls, extra, kind = gen.pick_class(sr, rng, sym, ferm)
